@@ -27,6 +27,36 @@ def main(tier):
         ws = rnd.choice([[30, 200], [20, 40, 120], [30, 30, 30, 160], [10, 20, 30, 40]])
         sizes = [(rnd.choice(ws), rnd.choice([20, 30])) for _ in range(n)]
         cases.append((n, sizes, [(rnd.randint(0, 300), rnd.randint(0, 300)) for _ in range(n)], es, rnd.randint(0, 127)))
+    # ear graphs: a cycle plus one or two chains of degree-2 nodes ("ears") between two of its nodes, optionally a chord and small hanging
+    # trees -- the inputs on which the chain configuration (Chain::takeShapeBasedConfiguration, used when useACAforLinks is off) has
+    # several bends to distribute over a chain; two thirds of them run in chain mode
+    for _ in range(260 if quick else 1500):
+        nc = rnd.randint(3, 6)
+        es = set((i + 1, (i + 1) % nc + 1) for i in range(nc))
+        n = nc
+        for _ear in range(rnd.randint(1, 2)):
+            a = rnd.randint(1, nc)
+            b = rnd.choice([x for x in range(1, nc + 1) if x != a])
+            prev = a
+            for _k in range(rnd.randint(2, 4)):
+                n += 1
+                es.add((prev, n)); prev = n
+            es.add((prev, b))
+        if rnd.random() < 0.3 and nc >= 4:
+            a = rnd.randint(1, nc); b = (a + 1) % nc + 1
+            if (a, b) not in es and (b, a) not in es and a != b:
+                es.add((a, b))
+        for _t in range(rnd.randint(0, 2)):
+            par = rnd.randint(1, n)
+            for _k in range(rnd.randint(1, 3)):
+                n += 1
+                es.add((par, n)); par = rnd.choice([par, n])
+        es = sorted((min(u, v), max(u, v)) for u, v in es)
+        sizes = [(rnd.choice([20, 30, 40, 50, 60]), rnd.choice([20, 30, 40, 50])) for _ in range(n)]
+        opts = rnd.randint(0, 127)
+        if rnd.random() < 0.67:
+            opts &= ~1
+        cases.append((n, sizes, [(rnd.randint(0, 600), rnd.randint(0, 600)) for _ in range(n)], es, opts))
     cf = os.path.join(d, 'cases.txt')
     with open(cf, 'w') as f:
         for n, sizes, pos, es, opts in cases:
